@@ -15,7 +15,7 @@ pub const DEF: PropDef = PropDef {
     run,
     replay,
     level: "exploration",
-    rule: "three generators: (a) boundary sweep - for every (handshake string, DH, message index) one probing call per case on a fresh session driven honestly to that message: writes with every output-buffer length at each field boundary -1/0/+1 and at 0/total/total+16/65535/65536/66000 and payload lengths around the maximum, reads of the genuine message truncated at every boundary +-1, of garbage of those lengths, with payload buffers 0/p-1/p/p+1, and oversize messages; (b) proptest op sequences over the whole public API (name strings incl. edited/non-ASCII/random, builder keys of length 0..=200, prologues up to 66000, psk locations 0..=255 and huge (2^32, 2^63, usize::MAX), reads/writes with arbitrary bytes and buffers 0..=66000, set_psk, getters, Debug formatting of every session object and the raw Split() query after every operation, conversions at any time, transport/stateless ops with boundary nonces, rekeys, nonce setters); (b2) scalar arguments at their extremes: set_psk(location, key) for 22 locations up to usize::MAX x key lengths 0/31/32/33, nonce setters and stateless nonces at the same 22 values, on fresh / mid-handshake / finished sessions; (c) arbitrary strings to the name parser, and names with 1..5000 modifiers / repeated tokens / every psk index 0..300; every name that parses is built bare AND with all keys and ten PSKs supplied (so that the build passes the prerequisite checks), then written and read once. Oracle: no call unwinds (catch_unwind at the call boundary), every call returns Ok/Err and never a length larger than its output buffer. Non-trivial = a case that got past build and executed at least one read/write; distinct by full case value",
+    rule: "three generators: (a) boundary sweep - for every (handshake string, DH, message index) one probing call per case on a fresh session driven honestly to that message: writes with every output-buffer length at each field boundary -1/0/+1 and at 0/total/total+16/65535/65536/66000 and payload lengths around the maximum, reads of the genuine message truncated at every boundary +-1, of garbage of those lengths, with payload buffers 0/p-1/p/p+1, and oversize messages; (b) proptest op sequences over the whole public API (name strings incl. edited/non-ASCII/random, builder keys of length 0..=200, prologues up to 66000, psk locations 0..=255 and huge (2^32, 2^63, usize::MAX), reads/writes with arbitrary bytes and buffers 0..=66000, set_psk, getters, Debug formatting of every session object and the raw Split() query after every operation, conversions at any time, transport/stateless ops with boundary nonces, rekeys, nonce setters); (b1) 2 / 4 / 8 threads calling read_message / write_message at once on shared StatelessTransportState objects (it is Sync) with exact-size, slightly larger and ample buffers, genuine and altered messages, both backends; (b2) scalar arguments at their extremes: set_psk(location, key) for 22 locations up to usize::MAX x key lengths 0/31/32/33, nonce setters and stateless nonces at the same 22 values, on fresh / mid-handshake / finished sessions; (c) arbitrary strings to the name parser, and names with 1..5000 modifiers / repeated tokens / every psk index 0..300; every name that parses is built bare AND with all keys and ten PSKs supplied (so that the build passes the prerequisite checks), then written and read once. Oracle: no call unwinds (catch_unwind at the call boundary), every call returns Ok/Err and never a length larger than its output buffer. Non-trivial = a case that got past build and executed at least one read/write; distinct by full case value",
     technique: "robustness fuzzing: exhaustive boundary sweep from reference-model field maps + proptest API op-sequence generation with shrinking (+ libFuzzer target api_ops in the thorough tier)",
     assumptions: &[
         "non-termination and process aborts are only observable as time-outs (exit 2), never decided",
@@ -357,6 +357,68 @@ fn scalar_oracle(c: &ScalarCase, acc: &mut Acc) -> CaseResult {
     Ok(())
 }
 
+/// `StatelessTransportState` takes `&self` and is `Sync`: calls from several threads at once on
+/// one object must not panic either (exact-size, slightly larger and ample buffers; genuine and
+/// altered messages; both backends).
+#[derive(Clone, Debug, Serialize, Deserialize)]
+pub struct ConcCase {
+    pub suite_idx: usize,
+    pub backend: crate::instr::Backend,
+    pub threads: usize,
+    pub plen: usize,
+    pub seed: u64,
+}
+
+fn conc_oracle(c: &ConcCase, acc: &mut Acc) -> CaseResult {
+    let suites = all_suites();
+    let suite = suites[c.suite_idx % suites.len()];
+    let mut spec = SessionSpec::simple(HsName { pattern: "NN".into(), psks: vec![] }, suite, c.seed);
+    if ring_covers(suite) {
+        spec.backend_i = c.backend;
+        spec.backend_r = c.backend;
+    }
+    let pair = drive_to(&spec, 2)?;
+    let ti = call("into_stateless_transport_mode", || pair.i.into_stateless_transport_mode())?.map_err(|x| Fail::setup(format!("{x:?}")))?;
+    let tr = call("into_stateless_transport_mode", || pair.r.into_stateless_transport_mode())?.map_err(|x| Fail::setup(format!("{x:?}")))?;
+    let payload = expand(c.seed, 3, c.plen);
+    let mut msgs = Vec::new();
+    for n in 0..8u64 {
+        let mut buf = vec![0u8; c.plen + 16];
+        let l = ti.write_message(n, &payload, &mut buf).map_err(|x| Fail::setup(format!("{x:?}")))?;
+        msgs.push(buf[..l].to_vec());
+    }
+    let (ti, tr, msgs, payload) = (&ti, &tr, &msgs, &payload);
+    let results: Vec<CaseResult> = std::thread::scope(|sc| {
+        let hs: Vec<_> = (0..c.threads)
+            .map(|t| {
+                sc.spawn(move || -> CaseResult {
+                    for round in 0..60usize {
+                        let n = ((t + round) % 8) as u64;
+                        let slack = [0usize, 1, 15, 16, 100][(t + round) % 5];
+                        let mut out = vec![0u8; payload.len() + slack];
+                        let mut m = msgs[n as usize].clone();
+                        if round % 7 == 3 {
+                            let l = m.len();
+                            m[l - 1] ^= 1;
+                        }
+                        let _ = call("StatelessTransportState::read_message (concurrent)", || tr.read_message(n, &m, &mut out))?;
+                        let mut wb = vec![0u8; payload.len() + 16];
+                        let _ = call("StatelessTransportState::write_message (concurrent)", || ti.write_message(n + 100, payload, &mut wb))?;
+                    }
+                    Ok(())
+                })
+            })
+            .collect();
+        hs.into_iter().map(|h| h.join().unwrap_or_else(|_| Err(Fail::new("a worker thread panicked outside a guarded call")))).collect()
+    });
+    for r in results {
+        r?;
+    }
+    acc.label(format!("concurrent:{}threads", c.threads));
+    acc.nontrivial(&format!("{c:?}"));
+    Ok(())
+}
+
 #[derive(Clone, Debug, Serialize, Deserialize)]
 pub struct ParseCase {
     pub s: String,
@@ -506,6 +568,19 @@ pub fn run(ctx: &Ctx) {
         },
         parse_oracle,
     );
+    // concurrent calls on shared stateless sessions
+    {
+        let mut cc = Vec::new();
+        for suite_idx in 0..12usize {
+            for backend in [crate::instr::Backend::Default, crate::instr::Backend::RingFirst] {
+                for (k, plen) in [0usize, 33, 1500, 9000].iter().enumerate() {
+                    cc.push(ConcCase { suite_idx, backend, threads: [2usize, 4, 8][(suite_idx + k) % 3], plen: *plen, seed: mix(ctx.seed, 71_000 + (suite_idx * 8 + k) as u64) });
+                }
+            }
+        }
+        // sequentially (each case spawns its own threads)
+        ctx.run_list("concurrent_stateless_calls", &cc, false, conc_oracle);
+    }
     // scalar arguments at their extremes
     {
         let mut sc = Vec::new();
@@ -562,6 +637,7 @@ pub fn replay(ctx: &Ctx, sub: &str, case: &serde_json::Value, origin: &str) -> b
     match sub {
         "boundary_sweep" => ctx.replay_case::<SweepCase, _>(sub, case, sweep_oracle, origin),
         "transport_sweep" | "dense_lengths_both_backends" => ctx.replay_case::<TSweepCase, _>(sub, case, tsweep_oracle, origin),
+        "concurrent_stateless_calls" => ctx.replay_case::<ConcCase, _>(sub, case, conc_oracle, origin),
         "scalar_arguments" => ctx.replay_case::<ScalarCase, _>(sub, case, scalar_oracle, origin),
         "parse_strings" | "long_and_indexed_names" => ctx.replay_case::<ParseCase, _>(sub, case, parse_oracle, origin),
         "known_p256_invalid_scalar" => ctx.replay_case::<P256ScalarCase, _>(sub, case, p256_scalar_oracle, origin),
